@@ -6,6 +6,7 @@ import (
 	"strings"
 	"time"
 	"verif/harness/props/c01b"
+	"verif/harness/props/c19"
 
 	"github.com/jcmturner/gokrb5/v8/credentials"
 	"github.com/jcmturner/gokrb5/v8/messages"
@@ -41,6 +42,24 @@ func defectCatalogue() []defect {
 			inner, _ := asn1.Marshal(types.AuthorizationData{{ADType: 128, ADData: []byte{5, 0, 0, 0, 0, 0, 0, 0, 1, 0, 0, 0}}})
 			r.authData = types.AuthorizationData{{ADType: 1, ADData: inner}}
 		}},
+		{"valid-pac", false, func(c *Ctx, s *testService, r *recipe, d time.Duration) {
+			// a PAC correctly signed under the service's key: the request stays valid, PAC decoding on or off
+			if b, ok := c19.SignedPAC(c, r.et, s.keys[r.et].KeyValue, -1, false); ok {
+				r.authData = c19.ADIfRelevantPAC(b)
+			}
+		}},
+		{"valid-pac-rodc", false, func(c *Ctx, s *testService, r *recipe, d time.Duration) {
+			// ... issued by a read-only domain controller: an RODCIdentifier follows each signature value
+			if b, ok := c19.SignedPAC(c, r.et, s.keys[r.et].KeyValue, 0x4a2b, false); ok {
+				r.authData = c19.ADIfRelevantPAC(b)
+			}
+		}},
+		{"pac-bad-signature", false, func(c *Ctx, s *testService, r *recipe, d time.Duration) {
+			// a PAC altered after signing: invalid exactly when PAC decoding is enabled (decided in run)
+			if b, ok := c19.SignedPAC(c, r.et, s.keys[r.et].KeyValue, -1, true); ok {
+				r.authData, r.badPAC = c19.ADIfRelevantPAC(b), true
+			}
+		}},
 		{"wrong-etype", true, func(c *Ctx, s *testService, r *recipe, d time.Duration) {
 			r.encEType = map[int32]int32{17: 18, 18: 17, 19: 20, 20: 19, 23: 17, 16: 23}[r.et]
 		}},
@@ -69,6 +88,12 @@ func defectCatalogue() []defect {
 		{"cname-prefix", true, func(c *Ctx, s *testService, r *recipe, d time.Duration) {
 			r.authCName = append(append([]string{}, r.cname...), "admin")
 		}},
+		{"cname-shorter", true, func(c *Ctx, s *testService, r *recipe, d time.Duration) {
+			// the authenticator names a proper prefix of the client principal sealed in the ticket
+			r.cname = []string{"testuser1", "admin"}
+			r.authCName = []string{"testuser1"}
+		}},
+		{"cname-empty", true, func(c *Ctx, s *testService, r *recipe, d time.Duration) { r.authCName = []string{} }},
 		{"cname-boundary", true, func(c *Ctx, s *testService, r *recipe, d time.Duration) {
 			// same "/"-joined string, different components
 			r.cname = []string{"host", "client.test.gokrb5"}
@@ -150,7 +175,7 @@ func c01(c *Ctx) {
 				}
 			}
 		}
-		pacCase := containsDefect(cat, defs, "broken-pac")
+		pacCase := containsDefect(cat, defs, "broken-pac") || r.badPAC
 		if pacCase && ss.decodePAC {
 			invalid = true
 		}
@@ -288,6 +313,11 @@ func c01(c *Ctx) {
 		// every single defect
 		for di := range cat {
 			run(et, base, []int{di}, 0, "single")
+			if strings.Contains(cat[di].name, "pac") {
+				// what a PAC does to the verdict shows only where PAC decoding is on
+				run(et, svcSettings{skew: 5 * time.Minute, decodePAC: true}, []int{di}, 0, "single-pac-decoding")
+				run(et, svcSettings{skew: 5 * time.Minute, decodePAC: true, override: true}, []int{di}, 1, "single-pac-decoding")
+			}
 			if !c.Quick() || di%4 == int(et)%4 {
 				run(et, settingsList[c.R.Intn(len(settingsList))], []int{di}, c.R.Intn(4), "single-settings")
 			}
@@ -341,7 +371,7 @@ func c01(c *Ctx) {
 // defects that write the same recipe field override each other: such pairs are skipped
 var defectField = map[string]string{"start-outside": "start", "start-inside": "start", "start-absent": "start", "end-outside": "end", "end-inside": "end",
 	"flip-ticket": "tktcipher", "trunc-ticket": "tktcipher", "flip-auth": "authcipher", "trunc-auth": "authcipher",
-	"cname-mismatch": "authcname", "cname-prefix": "authcname", "cname-boundary": "authcname", "multi-component-client": "authcname", "invalid-flag": "flags", "other-flags": "flags",
+	"cname-mismatch": "authcname", "cname-prefix": "authcname", "cname-shorter": "authcname", "cname-empty": "authcname", "cname-boundary": "authcname", "multi-component-client": "authcname", "invalid-flag": "flags", "other-flags": "flags", "broken-pac": "authdata", "valid-pac": "authdata", "valid-pac-rodc": "authdata", "pac-bad-signature": "authdata",
 	"ctime-late": "ctime", "ctime-early": "ctime", "ctime-inside": "ctime", "wrong-key": "tktkey", "auth-key": "authkey", "ctime-late-subsecond": "ctime", "end-outside-subsecond": "end", "kvno-plus-256": "kvno", "wrong-kvno": "kvno"}
 
 func defectIndex(cat []defect, name string) int {
